@@ -204,13 +204,29 @@ func (u *Unit) oblige(kind, label string, pos token.Pos, st *State, goal string,
 	if label != "" {
 		name += "." + label
 	}
-	if u.contract != nil && u.contract.Sweep {
-		// named by the source line, not by an ordinal (see sweep_safety.go)
-		k := kind
-		if kind == "nopanic" {
-			k = "nopanic.assert"
+	// Safety obligations and preconditions at call sites are named by the text of the source
+	// line they sit on, not by an ordinal: an unrelated edit of the same function (one more
+	// index expression, one more call of the same callee) must not rename them.
+	if pos.IsValid() {
+		line := u.lineLabel(u.posStr(pos))
+		switch {
+		case strings.HasPrefix(kind, "safe."):
+			name = u.name + "#" + kind + "[" + line + "]"
+		case kind == "nopanic" && strings.HasPrefix(label, "assert."):
+			name = u.name + "#nopanic.assert[" + line + "]"
+		case kind == "nopanic" && label != "" && label[0] >= '0' && label[0] <= '9':
+			name = u.name + "#nopanic.panic[" + line + "]"
+		case kind == "pre@call":
+			// label = callee#k.clause
+			if i := strings.Index(label, "#"); i >= 0 {
+				rest := label[i+1:]
+				cl := ""
+				if j := strings.Index(rest, "."); j >= 0 {
+					cl = rest[j:]
+				}
+				name = u.name + "#pre@call." + label[:i] + "[" + line + "]" + cl
+			}
 		}
-		name = u.name + "#" + k + "[" + u.lineLabel(u.posStr(pos)) + "]"
 	}
 	// make unique
 	base := name
